@@ -32,7 +32,7 @@ func (pass *DisjunctionInferMapping) processDisjunction(visitor *Visitor, schema
 		return ast.Type{}, err
 	}
 
-	if !def.Disjunction.Branches.HasOnlyRefs() {
+	if len(def.Disjunction.Branches) == 0 || !def.Disjunction.Branches.HasOnlyRefs() {
 		return def, nil
 	}
 
